@@ -28,6 +28,9 @@ _BIN_SCAN_CONT = "            fp.read(4)\n            if listonly:\n            
 _REC_LOOPS = "        if N:\n            data = np.empty(N, dtype=frm)\n            i = 0\n            while key > 0:\n                reclen = self._Str4.unpack(f.read(4))[0]\n                # f.read(4)  # reclen\n                n = reclen // bytes_per\n                if n < self._rowsCutoff:\n                    b = n * bytes_per\n                    data[i : i + n] = struct.unpack(frmu % n, f.read(b))\n                else:\n                    data[i : i + n] = np.fromfile(f, frm, n)\n                i += n\n                f.read(4)  # endrec\n                key = self._getkey()\n        else:\n            data = []\n            while key > 0:\n                reclen = self._Str4.unpack(f.read(4))[0]\n                # f.read(4)  # reclen\n                n = reclen // bytes_per\n                if n < self._rowsCutoff:\n                    b = n * bytes_per\n                    cur = struct.unpack(frmu % n, f.read(b))\n                else:\n                    cur = np.fromfile(f, frm, n)\n                data.extend(cur)\n                # data = np.hstack((data, cur))\n                f.read(4)  # endrec\n                key = self._getkey()\n            data = np.array(data, dtype=frm)\n        self._skipkey(2)\n        return data\n"
 _REC_FUSED = "        if N:\n            data = np.empty(N, dtype=frm)\n        else:\n            parts = []\n        i = 0\n        while key > 0:\n            reclen = self._Str4.unpack(f.read(4))[0]\n            n = reclen // bytes_per\n            if n < self._rowsCutoff:\n                cur = struct.unpack(frmu % n, f.read(n * bytes_per))\n            else:\n                cur = np.fromfile(f, frm, n)\n            if N:\n                data[i : i + n] = cur\n                i += @STEP@\n            else:\n                parts.extend(cur)\n            f.read(4)  # endrec\n            key = self._getkey()\n        if not N:\n            data = np.array(parts, dtype=frm)\n        self._skipkey(2)\n        return data\n"
 
+_OP2_FORMATS = "        if reclen == 4:\n            self._ibytes = 4\n            self._intstr = self._endian + \"i4\"\n            self._intstru = self._endian + \"%di\"\n            self._i = \"i\"\n            self._Str = self._Str4\n            self._rfrmu = self._endian + \"%df\"\n            self._rfrm = self._endian + \"f4\"\n            self._f = \"f\"\n            self._fbytes = 4\n        else:\n            self._ibytes = 8\n            self._intstr = self._endian + \"i8\"\n            self._intstru = self._endian + \"%dq\"\n            self._i = \"q\"\n            self._Str = struct.Struct(self._endian + \"q\")\n            self._rfrmu = self._endian + \"%dd\"\n            self._rfrm = self._endian + \"f8\"\n            self._f = \"d\"\n            self._fbytes = 8\n"
+_OP2_TABLE = "        table = {4: (4, \"i4\", \"%di\", \"i\", \"%df\", \"f4\", \"f\"), 8: (8, \"i8\", \"@I8@\", \"q\", \"%dd\", \"f8\", \"d\")}\n        nb, istr, istru, ichar, rfrmu, rfrm, fchar = table[4 if reclen == 4 else 8]\n        self._ibytes = self._fbytes = nb\n        self._intstr = self._endian + istr\n        self._intstru = self._endian + istru\n        self._i = ichar\n        self._Str = struct.Struct(self._endian + ichar)\n        self._rfrmu = self._endian + rfrmu\n        self._rfrm = self._endian + rfrm\n        self._f = fchar\n"
+
 RECIPES = [
     # ------------------------------------------------------------------ break: decode sizes (R2)
     ("C11", "break", ["C11-R2"], OP2, "        hbytes = 3 * self._ibytes\n", "        hbytes = 12\n", "DYNAMICS header read with a fixed 12 bytes (wrong with 64-bit keys)"),
@@ -181,4 +184,10 @@ RECIPES = [
     ("C11", "break", ["C11-R6"], OP2, _REC_LOOPS, _REC_FUSED.replace("@STEP@", "key"), "rdop2record (fused loops): cursor advanced by the key"),
     # ------------------------------------------------------------------ for over itertools.count / iter(f, sentinel)
     ("C11", "neutral", [], OP4, "        icol = 1\n        bi = self._bytes_i\n        delta = 4 - bi\n        while icol <= cols:\n", "        bi = self._bytes_i\n        delta = 4 - bi\n        icol = 1\n        while True:\n            if not icol <= cols:\n                break\n", "_skipop4_binary: while True with the test as a guard"),
+    # ------------------------------------------------------------------ literal lookup table for the per-key-width formats
+    ("C11", "neutral", [], OP2, _OP2_FORMATS, _OP2_TABLE.replace("@I8@", "%dq"), "_op2open: formats taken from a literal table keyed by the key width"),
+    ("C11", "break", ["C11-R2"], OP2, _OP2_FORMATS, _OP2_TABLE.replace("@I8@", "%di"), "_op2open (lookup table): 4-byte struct code for the 8-byte integers"),
+    # ------------------------------------------------------------------ a relative move written seek(tell() + n)
+    ("C11", "neutral", [], OP4, "            self._fileh.seek(reclen + delta, 1)\n", "            self._fileh.seek(self._fileh.tell() + reclen + delta)\n", "_skipop4_binary: seek(tell() + n)"),
+    ("C11", "break", ["C11-R4"], OP4, "            self._fileh.seek(reclen + delta, 1)\n", "            self._fileh.seek(self._fileh.tell() + reclen)\n", "_skipop4_binary (seek(tell() + n)): the 4 - word size correction dropped"),
 ]
